@@ -601,6 +601,12 @@ func (c *Ctx) c14Register() {
 					setInserts = append(setInserts, ev)
 				}
 			}
+			if typ == nil && look == nil && !g.open && !c.featurePath(p) {
+				// "changes when a type is added": an iteration that goes on to the next value without having asked whether this one's
+				// type is registered drops the value (a guard for nil values that also catches typed nil pointers, …)
+				r.Bad("R14.3", "GobRegister", "value-skipped", c.Pos(g.begin.Pos), "an iteration over the given values neither looks its type up in the registered set nor registers it: the value is silently dropped (its type never reaches gob.Register nor the hash)", shortTrace(p))
+				continue
+			}
 			if typ == nil {
 				continue
 			}
